@@ -416,6 +416,10 @@ def shared_name_query(n, prog, q):
     if not tainted:
         return False
     order, _ = expansions(prog, q)
+    # (an upper bound: expanding a tainted definition at all puts the query in the class — the result of such an
+    # expansion can be that of another instantiation made earlier in the same run, see DESIGN.md §13)
+    if any(d in tainted for d in order):
+        return True
     for i, (T, s) in enumerate(order[:-1]):
         if (T, s) not in tainted:
             continue
